@@ -246,6 +246,8 @@ def gbspec(b, m=None):
         return "BNone"
     if isinstance(b, dict) and "per_member" in b:
         return gbspec(b["per_member"][m])
+    if isinstance(b, dict) and "grid" in b:
+        return "(BGrid %s)" % glist(b["grid"], gxs)
     if isinstance(b, dict):
         return "(BSeries %s %s)" % (glist(b["times"], lambda t: gq(fx(F(t)))), glist(b["values"], lambda t: gq(fx(F(t)))))
     return "(BScalar %s)" % gxs(b)
